@@ -76,6 +76,10 @@ def gen_cases(tier, seed):
                     cid = "%s-%s-%s-%s" % (typ, bshort(b), "signed" if signed else "unsigned", rname)
                     cases.append({"id": cid, "sig": [typ, bshort(b), signed, rname], "type": typ, "binding": b, "signed": signed, "receiver": rname,
                                   "deep": tier == "thorough"})
+                    if typ in ("authn", "logout") and rname in ("plain", "want-signed"):
+                        # the same requests made with the optional arguments of the create_* call (NotOnOrAfter, SessionIndex, ForceAuthn, ...)
+                        cases.append({"id": cid + "-with-options", "sig": [typ, bshort(b), signed, rname, "options"], "type": typ, "binding": b, "signed": signed,
+                                      "receiver": rname, "deep": tier == "thorough", "opts": 1})
     return cases
 
 
@@ -141,7 +145,7 @@ def own_endpoints(rname, typ, binding):
     return m.get(binding, [])
 
 
-def make_request(sp, typ, binding, signed, rname):
+def make_request(sp, typ, binding, signed, rname, opts=False):
     from saml2_tophat.saml import NameID, NAMEID_FORMAT_PERSISTENT
     nid = NameID(format=NAMEID_FORMAT_PERSISTENT, text="subject-1", sp_name_qualifier=fed.SP_EID, name_qualifier=fed.IDP_EID)
     aa = RECEIVERS[rname].get("kind") == "aa"
@@ -149,7 +153,16 @@ def make_request(sp, typ, binding, signed, rname):
     dest = eps[0]
     if aa:
         nid = NameID(format=NAMEID_FORMAT_PERSISTENT, text="subject-1", sp_name_qualifier=fed.SP_EID, name_qualifier=AA_ALONE_EID)
-    if typ == "authn":
+    if typ == "authn" and opts:
+        # the optional parts a caller may ask for
+        from saml2_tophat.samlp import NameIDPolicy
+        rid, req = sp.create_authn_request(dest, binding=BINDING_HTTP_POST, sign=bool(signed), force_authn="true", is_passive="false", consent="urn:oasis:names:tc:SAML:2.0:consent:obtained",
+                                           nameid_format=NAMEID_FORMAT_PERSISTENT, provider_name="SP with options")
+    elif typ == "logout" and opts:
+        from saml2_tophat import time_util
+        rid, req = sp.create_logout_request(dest, fed.IDP_EID, name_id=nid, reason="user", sign=bool(signed), expire=time_util.in_a_while(minutes=5),
+                                            session_indexes=["session-1", "session-2"], consent="urn:oasis:names:tc:SAML:2.0:consent:obtained")
+    elif typ == "authn":
         rid, req = sp.create_authn_request(dest, binding=BINDING_HTTP_POST, sign=bool(signed))
     elif typ == "logout":
         rid, req = sp.create_logout_request(dest, fed.IDP_EID, name_id=nid, reason="user", sign=bool(signed))
@@ -263,7 +276,7 @@ def run_case(case, ctx):
     sp, idp = _ents(ctx, case["receiver"])
     typ, binding, signed, rname = case["type"], case["binding"], case["signed"], case["receiver"]
     want_signed = bool(RECEIVERS[rname]["want"])
-    xml = make_request(sp, typ, binding, signed, rname)
+    xml = make_request(sp, typ, binding, signed, rname, bool(case.get("opts")))
     own = own_endpoints(rname, typ, binding)
     rng = random.Random("%s/%s" % (ctx.seed, case["id"]))
     viol, counters, sigs = [], {}, []
